@@ -41,7 +41,9 @@ def bounds(tier):
 def work(tier, seed):
     b = bounds(tier)
     items = [{"blocks": [list(x) for x in bl], "grid": g}
-             for bl in ot.order_types(b["max_pos"], b["max_neg"], 1, 1) for g in b["grids"]]
+             for bl in ot.order_types(b["max_pos"], b["max_neg"], 1, 1) for g in b["grids"]
+             # thorough: every grid on data sets of up to 5 scores, the main two beyond
+             if tier == "quick" or sum(a + c for a, c in bl) <= 5 or g in ("irregular", "uint")]
     items.append({"kind": "nb_points_kinds"})
     for bl in ot.order_types(2, 2, 1, 1):
         items.append({"kind": "special_objects", "blocks": [list(x) for x in bl]})
